@@ -6,6 +6,7 @@ CONSTANTS
   J = 2
   MaxLen = 3
   Record = FALSE
+  Retain = FALSE
   Starts = {0}
   CtxChoices = {3}
   HCs = {"plain"}
